@@ -154,6 +154,8 @@ def obligations(tier, seed):
         g = Geometry(getattr(Restriction, e))
         off = g.lo - g.L
         for c in range(1, tier_pick(tier, 2, 3) + 1):
+            if g.ovl == 1 and c >= 3:
+                continue  # no three pairwise non-complementary 1-nt start overhangs exist: the domain is empty
             tlen, blen = 2, 2
             plens = [0, 2] if (tier != "quick" or c == 1) else [2]
             for plen in plens:
